@@ -1521,7 +1521,7 @@ impl PeerConnection {
         // accepted by the state machine: a rejected description must not move the counter)
         for section in &desc.media_sections {
             if let Ok(mid_val) = section.mid.parse::<u16>() {
-                self.inner.next_mid.fetch_max(mid_val + 1, Ordering::SeqCst);
+                self.inner.next_mid.fetch_max(mid_val.saturating_add(1), Ordering::SeqCst);
             }
         }
 
